@@ -1,3 +1,4 @@
 import XoGen.TieSlot
 import XoGen.TieStrides
 import XoGen.TieChunk
+import XoGen.TieIndex
